@@ -134,7 +134,7 @@ func nativeReplay(run HarnessRun, vecs []string, repeat int) (map[string][]strin
 		return nil, "", err
 	}
 	defer os.RemoveAll(scratch)
-	hdir := filepath.Join(verifDir, "harness", run.Dir)
+	hdir := filepath.Join(harnessRoot, run.Dir)
 	ov, err := sym.HarnessOverlay(hdir, repoDir, run.Rel)
 	if err != nil {
 		return nil, "", err
@@ -250,6 +250,15 @@ func TestVReplay(t *testing.T) {
 }
 
 var nativeObs = map[string]string{}
+
+// harnessRoot: /verif/harness, unless GOSYM_HARNESS names a development copy (only honoured together
+// with GOSYM_REPO, i.e. never by a registered command).
+var harnessRoot = func() string {
+	if d := os.Getenv("GOSYM_HARNESS"); d != "" && os.Getenv("GOSYM_REPO") != "" {
+		return d
+	}
+	return filepath.Join(verifDir, "harness")
+}()
 
 // repoDir is the tree under test: /repo, unless GOSYM_REPO names a scratch copy (used only for
 // development runs against seeded changes; registered commands never set it). evidence and replay
@@ -374,7 +383,7 @@ func cmdCheck(args []string) {
 		key := run.Rel + "|" + run.Dir
 		prog := progs[key]
 		if prog == nil {
-			hdir := filepath.Join(verifDir, "harness", run.Dir)
+			hdir := filepath.Join(harnessRoot, run.Dir)
 			ov, err := sym.HarnessOverlay(hdir, repoDir, run.Rel)
 			if err != nil {
 				fmt.Fprintln(os.Stderr, "harness:", err)
